@@ -157,6 +157,9 @@ def r2(ctx: Ctx) -> None:
             n += 1
             st = stores(p, "_generated_until")
             ok = len(st) == 1 and key(st[0].value) == "time" and key(strip_ver(st[0].base)) == "self"
+            if not st and any(pol and key(strip_ver(c)) in ("(self._generated_until == time)", "(time == self._generated_until)") for c, pol, _ in p.conds):
+                ctx.holds(f, f.node, f"{q}: regeneration point := time of the change", "the point already is the time of the change on this path (the store would change nothing)")
+                continue
             ctx.check(ok, f, f.node, f"{q}: regeneration point := time of the change", "self._generated_until = time on every normal path", p.describe()[:120] + f" -> {len(st)} store(s)")
         ctx.require(n >= 1, f"{q}: no normal path")
     f = ctx.func("Fundamentals.add_market")
